@@ -9,7 +9,8 @@ EXPLANATION = ("Real tiltstack.TiltStack/crop/sort_tilts_by_angle/remove_tilts/b
                "symbolic pixel; tilt angles symbolic reals (orderings by path forks); number of tilts, axis orders, dtype, file/array input enumerated.")
 ASSUMPTIONS = ["width, height independent integers in [4,40]; n tilts enumerated (quick 2..5, thorough 2..8); tilt angles distinct reals in [-70,70] (n<=4 for sorting)",
                "indices to remove: enumerated subsets, 1- and 0-based; crop sizes symbolic; binning factor in {2,3,4}"]
-OUTSIDE = ["n > 8 tilts; equal tilt angles (ties excluded by the property)", "merge() over file patterns (glob of real files)"]
+OUTSIDE = ["n > 8 tilts; equal tilt angles (ties excluded by the property)"]
+WITNESS_ONLY = ["merge(): numeric order of the part files (h_merge) - real glob and real files, evaluated by the concrete run only"]
 BOUNDS = {"quick": {"tilts": "2..5", "image": "4..40 symbolic"}, "thorough": {"tilts": "2..8", "image": "4..40 symbolic"}}
 EXPECTED_EXCEPTIONS = ()
 OPTS = {"qtimeout": 20.0}
@@ -219,6 +220,36 @@ def h_op(env, op="flip", n=3, dtype="float32", input_order="xyz", output_order="
     env.check("result_dtype", env.true() if str(res.dtype) == dtype else _false(env))
 
 
+def h_merge(env, nfiles=12, padded=False):
+    """merge(): part files are concatenated in the NUMERIC order of their indices (tilt_2 before tilt_10), in the returned array
+    (both orders) and in the written file.  The files are found with a real glob, so this clause is evaluated by the concrete
+    run only (real files, real mrcfile); the symbolic run contributes the choice of the case."""
+    k = env.choice("case", [0, 1])
+    if env.mode == "sym":
+        env.check("case_declared", env.true())
+        return
+    import os
+    ts = env.module("tiltstack")
+    cm = env.module("cryomap")
+    out_order = ["xyz", "zyx"][int(k)]
+    base = os.path.dirname(env.real_path("x"))
+    W, H = 6, 5
+    parts = []
+    for i in range(1, nfiles + 1):
+        nt = 1 + (i % 3)
+        a = (np.arange(nt * H * W, dtype=np.float32).reshape(nt, H, W) % 7) + 100.0 * i
+        parts.append(a)
+        cm.write(a, os.path.join(base, ("tilt_%03d.mrc" if padded else "tilt_%d.mrc") % i), transpose=False)
+    outp = os.path.join(base, "merged.mrc")
+    res = ts.merge(os.path.join(base, "tilt_*.mrc"), output_file=outp, output_order=out_order)
+    exp = np.concatenate(parts, axis=0)                          # n, y, x
+    got = np.asarray(res)
+    got_zyx = got if out_order == "zyx" else got.transpose(2, 1, 0)
+    env.check("merged_in_numeric_order", bool(got_zyx.shape == exp.shape and np.array_equal(got_zyx, exp)))
+    disk = cm.read(outp, transpose=False)
+    env.check("merged_file_in_numeric_order", bool(disk.shape == exp.shape and np.array_equal(disk, exp)))
+
+
 def _guard(env, cond, thunk):
     """evaluate an out-of-range read only symbolically (conc: only when in range)"""
     if env.mode == "conc":
@@ -259,6 +290,7 @@ def jobs(tier, seed):
           ("h_op", {"op": "remove", "n": 5, "arg": ([2, 3], True, "csv"), "input_order": "zyx", "output_order": "zyx"}),
           ("h_op", {"op": "flip", "n": 3, "arg": ["x", "x"], "out_file": True}), ("h_op", {"op": "flip", "n": 2, "arg": ["x", "y", "x"], "dtype": "int16", "input_order": "zyx"}),
           ("h_op", {"op": "flip", "n": 4, "arg": ["z", "y", "z", "y"], "via_file": True, "input_order": "zyx", "output_order": "zyx"}),
+          ("h_merge", {"nfiles": 12}), ("h_merge", {"nfiles": 10, "padded": True}),
           ("h_op", {"op": "split", "n": 7, "dtype": "int16", "out_file": True}), ("h_op", {"op": "split", "n": 3, "via_file": True, "input_order": "zyx"})]
     if tier == "thorough":
         j += [("h_op", {"op": "sort", "n": 4}), ("h_op", {"op": "bin", "n": 2, "arg": 4, "dtype": "int16", "out_file": True}),
